@@ -71,6 +71,7 @@ def parseOp (ws : List String) : Option RepOp :=
   | ["rbend"] => some .rbEnd
   | ["clone", n] => some (.clone n)
   | ["clone", n, "late"] => some (.clone n)     -- schedule of the status update: irrelevant to the outcome
+  | ["clone", _, "fault"] => some (.clone "")   -- a transfer is cut in the middle: the clone must fail (like an unknown snapshot)
   | ["maxchain", a] => do some (.maxChainSet (← a.toNat?))
   | ["replace", t, s] => some (.replace t s)
   | _ => none
